@@ -25,6 +25,8 @@ inductive MomType where
 
 inductive Err where
   | valueError | typeError | indexError
+  -- round 3 (Gen/MomentsNum.lean): dictionary look-up, unassigned local, documented non-support, attribute of a non-array
+  | keyError | unboundLocalError | notImplementedError | attributeError
   deriving DecidableEq, Repr
 
 /-! ### orders -/
